@@ -154,6 +154,26 @@ def r3_index_loops(text):
     return out, n
 
 
+def r3_drain_loops(text):
+    """R3d: `for X in E.drain(..) { B }` -> `let mut __dr = drain_all(&mut E); while __dr.len() > 0 { let X =
+    __dr.remove(0); B }` (same elements in the same order; E is left empty, as drain(..) leaves it)."""
+    n = 0
+    out = text
+    while True:
+        mask = rustscan.code_mask(out)
+        mm = None
+        for m in re.finditer(r"for\s+(\w+)\s+in\s+([\w.]+)\.drain\(\.\.\)\s*\{", out):
+            if mask[m.start()]:
+                mm = m
+                break
+        if not mm:
+            break
+        head = "let mut __dr%d = drain_all(&mut %s); while __dr%d.len() > 0 { let %s = __dr%d.remove(0);" % (n, mm.group(2), n, mm.group(1), n)
+        out = out[:mm.start()] + head + out[mm.end():]
+        n += 1
+    return out, n
+
+
 def r3_fold(text):
     """R3b: `E.iter().fold(INIT, |acc, x| BODY)` -> `{ let mut acc = INIT; index loop { acc = BODY; } acc }`
     (the textbook desugaring of Iterator::fold over a slice)."""
